@@ -34,14 +34,14 @@ Definition wv_eqb (a b : wv) : bool :=
   end.
 
 Inductive pc :=
-| PLoad             (* locker: enqueue_or_mark_active, about to head_.load(relaxed)  [queue.hpp:78] *)
-| PCas (old : wv)   (* locker: about to compare_exchange_weak(old, new, acq_rel)     [queue.hpp:80-88] *)
-| PTry              (* try_lock thread: about to CAS inactive -> nullptr (acquire)   [queue.hpp:58-64] *)
+| PLoad             (* locker: enqueue_or_mark_active, about to head_.load(relaxed)  [atomic_intrusive_queue.hpp:84] *)
+| PCas (old : wv)   (* locker: about to compare_exchange_weak(old, new, acq_rel)     [atomic_intrusive_queue.hpp:86-94] *)
+| PTry              (* try_lock thread: about to CAS inactive -> nullptr (acquire)   [atomic_intrusive_queue.hpp:64-71] *)
 | PWait             (* enqueued, suspended until some unlock() calls resume_ *)
 | PHeld             (* owns the mutex (receiver got set_value / try_lock returned true): critical section *)
-| PUnl              (* unlock(): pendingQueue_.empty()? pop+resume : head_.load(relaxed)   [v1.cpp:33, queue.hpp:142] *)
-| PUnlCas           (* try_mark_inactive: about to CAS nullptr -> inactive (release) [queue.hpp:144-151] *)
-| PUnlX             (* about to head_.exchange(nullptr, acquire)                     [queue.hpp:171] *)
+| PUnl              (* unlock(): pendingQueue_.empty()? pop+resume : head_.load(relaxed)   [async_mutex_v1.cpp:33-42, atomic_intrusive_queue.hpp:149] *)
+| PUnlCas           (* try_mark_inactive: about to CAS nullptr -> inactive (release) [atomic_intrusive_queue.hpp:150-158] *)
+| PUnlX             (* about to head_.exchange(nullptr, acquire)                     [atomic_intrusive_queue.hpp:177] *)
 | PDone             (* unlock() returned *)
 | PFailed.          (* try_lock returned false *)
 
